@@ -257,6 +257,14 @@ def rename_atom(a, old, new):
     """textual renaming of an index variable inside an atom name"""
     b = _re.sub(r'(?<![A-Za-z0-9_$])%s(?![A-Za-z0-9_])' % _re.escape(old), new, a)
     if b != a:
+        from . import trig as _trig
+        if a in _trig.TRIG:
+            # trigonometric atoms are named after the canonical text of their base angle: rebuild instead of patching the text
+            kind, base = _trig.TRIG[a]
+            b = list(_trig._atom(kind, rename_var(base, old, new)).atoms())[0]
+            if a in pysym.INT_ATOMS:
+                pysym.INT_ATOMS.add(b)
+            return b
         d = set(ATOM_DEPS.get(a, ()))
         if old in d:
             d.discard(old)
@@ -278,18 +286,14 @@ def rename_var(p, old, new):
 
 
 def make_sum(var, lo, hi, body, conds):
-    """SUM_{lo <= var < hi, conds} body  as a linear combination of canonical sum atoms"""
+    """SUM_{lo <= var < hi, conds} body  as a linear combination of canonical sum atoms.
+
+    Every monomial is split into the factor that does not depend on ``var`` (pulled out of the sum) and the dependent
+    factor; the dummy of each resulting sum atom is named by the nesting depth of the dependent factor only, so that the
+    same mathematical sum gets the same name wherever it is formed."""
     body = normal(body)
     conds = [c for c in conds if var in _cond_deps(c)]
-    if conds:
-        canon = var
-    else:
-        canon = '$%d' % (1 + max([_depth(a) for a in body.atoms()] or [0]))
-        pysym.INT_ATOMS.add(canon)
-        body = rename_var(body, var, canon)
-        var = canon
     out = P({})
-    # split every monomial into the part independent of var and the dependent part
     groups = {}
     for m, c in body.t.items():
         indep = []
@@ -301,7 +305,10 @@ def make_sum(var, lo, hi, body, conds):
                 indep.append((a, e))
         groups.setdefault(tuple(dep), P({}))
         groups[tuple(dep)] = groups[tuple(dep)] + P({tuple(indep): c})
-    ctext = ' & '.join(sorted(repr(c) for c in conds if var in _cond_deps(c)))
+    ctext = ' & '.join(sorted(repr(c) for c in conds))
+    lo_t = lo.text() if isinstance(lo, P) else str(lo)
+    hi_t = hi.text() if isinstance(hi, P) else str(hi)
+    merged = {}
     for dep, coef in groups.items():
         if not dep and not ctext:
             # constant in var: (hi - lo) * coef
@@ -309,17 +316,27 @@ def make_sum(var, lo, hi, body, conds):
             out = out + coef * n
             continue
         inner = P({dep: 1})
-        lo_t = lo.text() if isinstance(lo, P) else str(lo)
-        hi_t = hi.text() if isinstance(hi, P) else str(hi)
-        name = 'SUM{%s=%s..%s%s}(%s)' % (var, lo_t, hi_t, ('|' + ctext) if ctext else '', inner.text())
+        v = var
+        if not conds:
+            canon = '$%d' % (1 + max([_depth(a) for a, _ in dep] or [0]))
+            pysym.INT_ATOMS.add(canon)
+            inner = rename_var(inner, var, canon)
+            v = canon
+        key = (v, inner.text())
+        if key in merged:
+            merged[key] = (merged[key][0] + coef, merged[key][1])
+        else:
+            merged[key] = (coef, inner)
+    for (v, _), (coef, inner) in merged.items():
+        name = 'SUM{%s=%s..%s%s}(%s)' % (v, lo_t, hi_t, ('|' + ctext) if ctext else '', inner.text())
         d = set()
-        for a, _ in dep:
+        for a in inner.atoms():
             d.add(a)
             d |= ATOM_DEPS.get(a, set())
-        d.discard(var)
+        d.discard(v)
         d |= deps_of(lo) | deps_of(hi)
         ATOM_DEPS[name] = d
-        SUMS[name] = dict(var=var, lo=lo, hi=hi, body=inner, conds=[c for c in conds if var in _cond_deps(c)])
+        SUMS[name] = dict(var=v, lo=lo, hi=hi, body=inner, conds=list(conds))
         out = out + coef * P.atom(name)
     return out
 
